@@ -100,7 +100,9 @@ def calculateSunVizFraction(tgt_eci_position: ndarray, sun_eci_position: ndarray
 
     # Montenbruck, Eqs. 3.85 to 3.87
     a = arcsin(Sun.radius / norm(sat_sun_vector))
-    b = arcsin(Earth.radius / norm(tgt_eci_position))
+    # [NOTE]: A position on the Earth's surface can have a norm that rounds an ulp below the Earth's radius: the
+    #   apparent radius of the Earth is a quarter turn there, not the NaN of an argument above one.
+    b = arcsin(min(1.0, Earth.radius / norm(tgt_eci_position)))
     c = safeArccos(
         dot(-tgt_eci_position, sat_sun_vector) / (norm(tgt_eci_position) * norm(sat_sun_vector)),
     )
